@@ -270,8 +270,12 @@ Ltac step_crush :=
   unfold step, tick, recv, app_probe, app_raw, disconnect, set_mlt, set_id, truthy, testreq_frame in *;
   cbn [s_state s_hb s_mlt s_id s_conn fst snd negb andb orb app existsb is_testreq] in *;
   repeat (match goal with
-          | |- context [if ?c then _ else _] => destruct c eqn:?
-          | |- context [match ?x with _ => _ end] => destruct x eqn:?
+          | |- context [match ?x with _ => _ end] => is_var x; destruct x eqn:?
+          | |- context [if ?c then _ else _] =>
+              lazymatch c with
+              | context [match _ with _ => _ end] => fail
+              | _ => destruct c eqn:?
+              end
           end;
           cbn [s_state s_hb s_mlt s_id s_conn fst snd negb andb orb app existsb is_testreq] in *).
 
@@ -289,4 +293,534 @@ Proof.
     revert E; step_crush; intro E; inversion E; subst; cbn; try rewrite Hn in *; try discriminate;
     split; try reflexivity; auto.
   all: try (right; right; bool_lia; eauto).
+Qed.
+
+(* a dropped connection stays dropped and writes nothing *)
+Lemma dead_step : forall s e s' o,
+  s_conn s = false -> step s e = (s', o) -> existsb is_testreq o = false /\ s_conn s' = false.
+Proof.
+  intros [stt hb mlt id conn] e s' o Hc E. cbn in Hc. subst conn.
+  destruct e as [t | t m | t | t rid]; revert E; step_crush; intro E; inversion E; subst; cbn; auto.
+Qed.
+
+(* a TestRequest written by the watchdog or by send_test_req() carries int(time) and becomes the outstanding id *)
+Lemma probe_step : forall s e s' o,
+  is_raw e = false -> step s e = (s', o) -> existsb is_testreq o = true ->
+  (s_id s' = Some (ev_time e / 1000) \/ s_conn s' = false) /\ (s_id s = None \/ s_id s = Some 0).
+Proof.
+  intros [stt hb mlt id conn] e s' o Hr E.
+  destruct e as [t | t m | t | t rid]; [| destruct m as [rid | rid |] | | discriminate Hr];
+    revert E; step_crush; intro E; inversion E; subst; cbn; intro W; try discriminate W; bool_lia; subst; auto.
+Qed.
+
+Lemma id_nonzero_step : forall s e s' o,
+  s_id s <> Some 0 -> 1000 <= ev_time e -> step s e = (s', o) -> s_id s' <> Some 0.
+Proof.
+  intros [stt hb mlt id conn] e s' o Hi Ht E. cbn in Hi.
+  pose proof (div1000_pos (ev_time e) Ht) as Hd.
+  destruct e as [t | t m | t | t rid]; [| destruct m as [rid | rid |] | |];
+    revert E; step_crush; intro E; inversion E; subst; cbn in *; try assumption; try discriminate;
+    try (intro X; inversion X; lia).
+Qed.
+
+(* hb is never changed; a connected session stays ACTIVE (the state number changes only on disconnect) *)
+Definition ok (hb : Z) (s : st) : Prop := s_hb s = hb /\ (s_conn s = true -> s_state s = ST_ACTIVE).
+
+Lemma ok_step : forall hb s e s' o, ok hb s -> step s e = (s', o) -> ok hb s'.
+Proof.
+  intros hb [stt h mlt id conn] e s' o [Hh Hs] E. cbn in Hh, Hs. subst h.
+  destruct e as [t | t m | t | t rid]; [| destruct m as [rid | rid |] | |];
+    revert E; step_crush; intro E; inversion E; subst; split; cbn; auto; try discriminate.
+Qed.
+
+Lemma conn_step : forall s e s' o, step s e = (s', o) -> s_conn s' = true -> s_conn s = true.
+Proof.
+  intros s e s' o E H. destruct (s_conn s) eqn:C; [reflexivity|].
+  destruct (dead_step s e s' o C E) as [_ X]. congruence.
+Qed.
+
+Definition probe_row (r : row) : option Z :=
+  match r_ev r with
+  | Tick t | AppProbe t => if writes_testreq r then Some t else None
+  | _ => None
+  end.
+
+(* where an outstanding id comes from: it was there before, or this very step wrote the probe *)
+Lemma id_origin_step : forall hb s e s' o n,
+  ok hb s -> step s e = (s', o) -> s_conn s' = true -> s_id s' = Some n ->
+  s_id s = Some n \/ exists t, probe_row (mkRow e o s') = Some t /\ n = t / 1000.
+Proof.
+  intros hb0 [stt hb mlt id conn] e s' o n [_ Hs] E. cbn in Hs.
+  destruct e as [t | t m | t | t rid]; [| destruct m as [rid | rid |] | |];
+    revert E; step_crush; intro E; inversion E; subst; cbn; intros C I; try discriminate; auto;
+    try (inversion I; subst; right; eexists; split; [reflexivity|reflexivity]).
+  all: subst conn; specialize (Hs eq_refl); subst stt; cbn in *; discriminate.
+Qed.
+
+(* a Heartbeat echoing the outstanding id clears it *)
+Lemma answer_clears : forall s ta v s' o,
+  live s -> s_id s = Some (parse_id v) -> step s (Recv ta (MHeartbeat (Some v))) = (s', o) -> s_id s' = None.
+Proof.
+  intros [stt hb mlt id conn] ta v s' o [Hc Hs] Hi. cbn in Hc, Hs, Hi. subst.
+  cbn [step]. unfold recv. cbn [s_conn s_state s_id negb orb].
+  rewrite Z.eqb_refl.
+  replace (ST_ACTIVE <=? ST_DISCONNECTED_BROKEN_CONN) with false by reflexivity.
+  rewrite Z.eqb_refl. cbn [negb set_id set_mlt s_state s_hb s_mlt s_id s_conn].
+  intro E; inversion E; reflexivity.
+Qed.
+
+(* when the watchdog drops an ACTIVE session, a probe was outstanding and its deadline has passed *)
+Lemma wd_step : forall hb s t s' o,
+  1 <= hb -> ok hb s -> s_id s <> Some 0 -> 1000 <= t -> tick t s = (s', o) -> In ODisconnect o ->
+  exists n, s_id s = Some n /\ (n + 2 * hb) * 1000 < t.
+Proof.
+  intros hb s t s' o Hhb [Hh Hs] Hi Ht E D.
+  destruct (s_conn s) eqn:C.
+  - rewrite tick_live in E; [| split; auto | lia | assumption].
+    unfold tick_spec in E. rewrite Hh in E.
+    destruct (s_id s) as [n|] eqn:I.
+    + destruct (2 * hb * 1000 <? t - n * 1000) eqn:T.
+      * exists n. split; [reflexivity|]. bool_lia. lia.
+      * inversion E; subst o. destruct D.
+    + pose proof (div1000 t).
+      replace (2 * hb * 1000 <? t - t / 1000 * 1000) with false in E by (symmetry; apply Z.ltb_ge; lia).
+      rewrite andb_false_r in E.
+      destruct ((hb - 1) * 1000 <? t - s_mlt s); inversion E; subst o; cbn in D; intuition discriminate.
+  - unfold tick in E. rewrite C in E. cbn in E. inversion E; subst o. destruct D.
+Qed.
+
+(* ------------------------------------------------------------------ C12_live_peer *)
+Fixpoint sorted (evs : list ev) : Prop :=
+  match evs with
+  | [] => True
+  | e :: r => (forall e', In e' r -> ev_time e <= ev_time e') /\ sorted r
+  end.
+
+Definition wd_disconnect (r : row) : Prop := is_tick (r_ev r) = true /\ In ODisconnect (r_out r).
+
+(* a Heartbeat echoing id n that arrives no later than n + 2 hb seconds *)
+Definition is_answer (hb n : Z) (r : row) : Prop :=
+  exists ta v, r_ev r = Recv ta (MHeartbeat (Some v)) /\ parse_id v = n /\ ta <= (n + 2 * hb) * 1000.
+
+(* every TestRequest written by the watchdog (or send_test_req) at time t, i.e. with id t/1000, is answered later in the run *)
+Fixpoint answers (hb : Z) (tr : list row) : Prop :=
+  match tr with
+  | [] => True
+  | r :: rest =>
+      (forall t, probe_row r = Some t -> exists r', In r' rest /\ is_answer hb (t / 1000) r')
+      /\ answers hb rest
+  end.
+
+Definition pending_ok (hb : Z) (s : st) (tr : list row) : Prop :=
+  s_conn s = true -> forall n, s_id s = Some n -> exists r, In r tr /\ is_answer hb n r.
+
+Lemma in_trace_ev : forall s evs r, In r (trace s evs) -> In (r_ev r) evs.
+Proof. intros s evs r H. rewrite <- (trace_ev evs s). apply in_map. assumption. Qed.
+
+Lemma answering_no_wd : forall hb evs s,
+  1 <= hb -> ok hb s -> s_id s <> Some 0 -> sorted evs -> Forall (fun e => 1000 <= ev_time e) evs ->
+  answers hb (trace s evs) -> pending_ok hb s (trace s evs) ->
+  Forall (fun r => ~ wd_disconnect r) (trace s evs).
+Proof.
+  intros hb evs. induction evs as [|e evs IH]; intros s Hhb Hok Hid Hso Hti Han Hpe; [constructor|].
+  cbn [trace] in *. destruct (step s e) as [s' o] eqn:E.
+  destruct Hso as [Hhd Hso]. inversion Hti as [|? ? Ht Hti']; subst.
+  cbn [answers] in Han. destruct Han as [Hprobe Han].
+  pose proof (ok_step hb s e s' o Hok E) as Hok'.
+  pose proof (id_nonzero_step s e s' o Hid Ht E) as Hid'.
+  constructor.
+  - (* the head row is not a watchdog disconnect *)
+    intros [Htick Hdisc]. cbn [r_ev r_out] in Htick, Hdisc.
+    destruct e as [t | | |]; try discriminate Htick. cbn [step] in E. cbn [ev_time] in Ht.
+    destruct (wd_step hb s t s' o Hhb Hok Hid Ht E Hdisc) as [n [Hn Hlate]].
+    assert (Hc : s_conn s = true).
+    { destruct (s_conn s) eqn:C; [reflexivity|]. unfold tick in E. rewrite C in E. cbn in E.
+      inversion E; subst o. destruct Hdisc. }
+    destruct (Hpe Hc n Hn) as [r [[Hr | Hr] (ta & v & Hev & Hpar & Hdl)]].
+    + subst r. cbn [r_ev] in Hev. discriminate Hev.
+    + apply in_trace_ev in Hr. specialize (Hhd _ Hr). rewrite Hev in Hhd. cbn [ev_time] in Hhd. lia.
+  - apply IH; try assumption.
+    (* the invariant for the remaining run *)
+    intros Hc' n Hn.
+    pose proof (conn_step s e s' o E Hc') as Hc.
+    destruct (id_origin_step hb s e s' o n Hok E Hc' Hn) as [Hold | [t [Hp Hnt]]].
+    + destruct (Hpe Hc n Hold) as [r [[Hr | Hr] Hans]].
+      * (* the answer would be this very step: then the id is cleared *)
+        exfalso. subst r. destruct Hans as (ta & v & Hev & Hpar & _). cbn [r_ev] in Hev. subst e.
+        assert (L : live s) by (split; [assumption | apply Hok; assumption]).
+        rewrite <- Hpar in Hold.
+        pose proof (answer_clears s ta v s' o L Hold E). congruence.
+      * exists r. split; assumption.
+    + subst n. apply Hprobe. assumption.
+Qed.
+
+(* valid traffic never pauses longer than G before an iteration: `fed G last evs`, last = time of the last valid message *)
+Fixpoint fed (G last : Z) (evs : list ev) : Prop :=
+  match evs with
+  | [] => True
+  | Tick t :: r => t - last <= G /\ fed G last r
+  | Recv t _ :: r => fed G t r
+  | AppProbe _ :: _ => False
+  | AppRaw _ _ :: r => fed G last r
+  end.
+
+Lemma fed_quiet : forall hb G evs s t0,
+  0 <= hb -> G <= (hb - 1) * 1000 -> idle_at s hb t0 -> fed G t0 evs ->
+  Forall (fun r => is_tick (r_ev r) = true -> r_out r = []) (trace s evs)
+  /\ Forall (fun r => ~ In ODisconnect (r_out r) /\ writes_testreq r = false) (trace s evs).
+Proof.
+  intros hb G evs. induction evs as [|e evs IH]; intros s t0 Hhb HG I F; [split; constructor|].
+  destruct e as [t | t m | t | t rid]; cbn [fed] in F.
+  - destruct F as [Fl F]. cbn [trace step]. rewrite (tick_idle t s hb t0 I Hhb) by lia.
+    destruct (IH s t0 Hhb HG I F) as [A B].
+    split; constructor; auto; cbn; try (split; [tauto | reflexivity]).
+  - cbn [trace step].
+    assert (E : exists o, recv t m s = (set_mlt s t, o) /\ ~ In ODisconnect o /\ existsb is_testreq o = false).
+    { destruct I as ([Hc Hs] & Hh & Hi & Hm). destruct s as [stt h mlt id conn]. cbn in Hc, Hs, Hh, Hi, Hm. subst.
+      unfold recv. cbn [s_conn s_state s_id negb orb].
+      replace (ST_ACTIVE <=? ST_DISCONNECTED_BROKEN_CONN) with false by reflexivity.
+      rewrite Z.eqb_refl. cbn [negb].
+      destruct m as [r | r |]; [destruct r | |]; eexists; (split; [reflexivity|]); cbn; intuition discriminate. }
+    destruct E as [o [E [ND NT]]]. rewrite E.
+    assert (I' : idle_at (set_mlt s t) hb t).
+    { destruct I as (L & Hh & Hi & Hm). repeat split; try apply L; assumption. }
+    destruct (IH (set_mlt s t) t Hhb HG I' F) as [A B].
+    split; constructor; auto; cbn; try discriminate.
+  - destruct F.
+  - cbn [trace step].
+    assert (E : app_raw t rid s = (s, [ORaise])).
+    { destruct I as ([Hc Hs] & Hh & Hi & Hm). destruct s as [stt h mlt id conn]. cbn in Hc, Hs, Hh, Hi, Hm. subst.
+      unfold app_raw. cbn [s_conn s_state s_id negb orb].
+      replace (ST_ACTIVE <? ST_NETWORK_CONN_ESTABLISHED) with false by reflexivity.
+      rewrite Z.eqb_refl. reflexivity. }
+    rewrite E. destruct (IH s t0 Hhb HG I F) as [A B].
+    split; constructor; auto; cbn; try discriminate.
+    split; [intuition discriminate | reflexivity].
+Qed.
+
+Lemma live_peer : forall hb evs s t0,
+  1 <= hb -> idle_at s hb t0 -> Forall (fun e => 1000 <= ev_time e) evs ->
+  (fed ((hb - 1) * 1000) t0 evs \/ (sorted evs /\ answers hb (trace s evs))) ->
+  Forall (fun r => ~ wd_disconnect r) (trace s evs).
+Proof.
+  intros hb evs s t0 Hhb I Hti [F | [So An]].
+  - destruct (fed_quiet hb ((hb - 1) * 1000) evs s t0) as [_ B]; [lia | lia | assumption | assumption |].
+    eapply Forall_impl; [| exact B]. intros r [ND _] [_ D]. auto.
+  - destruct I as ([Hc Hs] & Hh & Hi & Hm).
+    apply (answering_no_wd hb evs s); try assumption.
+    + split; auto.
+    + congruence.
+    + intros _ n Hn. congruence.
+Qed.
+
+(* ------------------------------------------------------------------ C12_single_outstanding *)
+Definition no_raw (evs : list ev) : Prop := Forall (fun e => is_raw e = false) evs.
+
+Lemma dead_silent : forall evs s r,
+  s_conn s = false -> In r (trace s evs) -> writes_testreq r = false.
+Proof.
+  induction evs as [|e evs IH]; intros s r Hc Hin; [destruct Hin|].
+  cbn [trace] in Hin. destruct (step s e) as [s' o] eqn:E.
+  destruct (dead_step s e s' o Hc E) as [W C].
+  destruct Hin as [Hr | Hr]; [subst r; exact W | eapply IH; eassumption].
+Qed.
+
+(* while id n is outstanding, the next TestRequest frame is preceded by a Heartbeat echoing n *)
+Lemma pending_blocks : forall evs s n k rk,
+  s_id s = Some n -> n <> 0 -> no_raw evs ->
+  nth_error (trace s evs) k = Some rk -> writes_testreq rk = true ->
+  exists j rj ta v, (j < k)%nat /\ nth_error (trace s evs) j = Some rj
+                    /\ r_ev rj = Recv ta (MHeartbeat (Some v)) /\ parse_id v = n.
+Proof.
+  induction evs as [|e evs IH]; intros s n k rk Hi Hn Hr Hk W; [destruct k; discriminate Hk|].
+  inversion Hr as [|? ? Hre Hr']; subst.
+  cbn [trace] in *. destruct (step s e) as [s' o] eqn:E.
+  destruct (pending_step s e n s' o Hi Hn Hre E) as [Wo Hnext].
+  destruct k as [|k].
+  - cbn in Hk. inversion Hk; subst rk. unfold writes_testreq in W. cbn in W. congruence.
+  - cbn [nth_error] in Hk.
+    destruct Hnext as [Hsame | [Hdead | (ta & v & He & Hp)]].
+    + destruct (IH s' n k rk Hsame Hn Hr' Hk W) as (j & rj & ta & v & Hj & Hnj & Hev & Hp).
+      exists (S j), rj, ta, v. repeat split; try assumption. lia.
+    + pose proof (dead_silent evs s' rk Hdead (nth_error_In _ _ Hk)). congruence.
+    + exists 0%nat, (mkRow e o s'), ta, v. repeat split; try assumption. lia.
+Qed.
+
+Lemma single_outstanding : forall evs s i k ri rk,
+  s_id s <> Some 0 -> no_raw evs -> Forall (fun e => 1000 <= ev_time e) evs ->
+  (i < k)%nat ->
+  nth_error (trace s evs) i = Some ri -> nth_error (trace s evs) k = Some rk ->
+  writes_testreq ri = true -> writes_testreq rk = true ->
+  exists j rj ta v, (i < j < k)%nat /\ nth_error (trace s evs) j = Some rj
+                    /\ r_ev rj = Recv ta (MHeartbeat (Some v))
+                    /\ parse_id v = ev_time (r_ev ri) / 1000.
+Proof.
+  induction evs as [|e evs IH]; intros s i k ri rk Hid Hr Hti Hik Hi Hk Wi Wk; [destruct i; discriminate Hi|].
+  inversion Hr as [|? ? Hre Hr']; subst. inversion Hti as [|? ? Ht Hti']; subst.
+  cbn [trace] in *. destruct (step s e) as [s' o] eqn:E.
+  destruct k as [|k]; [lia|]. cbn [nth_error] in Hk.
+  destruct i as [|i].
+  - cbn in Hi. inversion Hi; subst ri. cbn [r_ev]. unfold writes_testreq in Wi. cbn [r_out] in Wi.
+    destruct (probe_step s e s' o Hre E Wi) as [[Hnew | Hdead] _].
+    + assert (Hn : ev_time e / 1000 <> 0) by (pose proof (div1000_pos _ Ht); lia).
+      destruct (pending_blocks evs s' _ k rk Hnew Hn Hr' Hk Wk) as (j & rj & ta & v & Hj & Hnj & Hev & Hp).
+      exists (S j), rj, ta, v. repeat split; try assumption; lia.
+    + pose proof (dead_silent evs s' rk Hdead (nth_error_In _ _ Hk)). congruence.
+  - cbn [nth_error] in Hi.
+    pose proof (id_nonzero_step s e s' o Hid Ht E) as Hid'.
+    destruct (IH s' i k ri rk Hid' Hr' Hti' ltac:(lia) Hi Hk Wi Wk) as (j & rj & ta & v & Hj & Hnj & Hev & Hp).
+    exists (S j), rj, ta, v. repeat split; try assumption; lia.
+Qed.
+
+(* ------------------------------------------------------------------ inbound TestRequest / Heartbeat *)
+Lemma recv_live_eq : forall now m s, live s ->
+  recv now m s =
+  let '(s1, o) :=
+    match m with
+    | MTestRequest rid => (s, [OWire KHeartbeat (Some (match rid with Some v => v | None => [48%N] end))])
+    | MHeartbeat rid =>
+        match s_id s, rid with
+        | Some n, Some v => if n =? parse_id v then (set_id s None, []) else disconnect s true
+        | _, _ => (s, [])
+        end
+    | MApp => (s, [])
+    end in (set_mlt s1 now, o).
+Proof.
+  intros now m [stt hb mlt id conn] [Hc Hs]. cbn in Hc, Hs. subst.
+  unfold recv. cbn [s_conn s_state negb orb].
+  replace (ST_ACTIVE <=? ST_DISCONNECTED_BROKEN_CONN) with false by reflexivity.
+  rewrite Z.eqb_refl. reflexivity.
+Qed.
+
+Lemma testreq_answered : forall now rid s, live s ->
+  recv now (MTestRequest rid) s =
+  (set_mlt s now, [OWire KHeartbeat (Some (match rid with Some v => v | None => [48%N] end))]).
+Proof. intros now rid s L. rewrite recv_live_eq by assumption. reflexivity. Qed.
+
+Lemma wrong_id_logout : forall now v s n, live s -> s_id s = Some n -> parse_id v <> n ->
+  recv now (MHeartbeat (Some v)) s =
+  (set_mlt (dead_st (s_hb s)) now, [OWire KLogout None; ODisconnect]).
+Proof.
+  intros now v s n L Hi Hne. rewrite recv_live_eq by assumption. rewrite Hi.
+  replace (n =? parse_id v) with false by (symmetry; apply Z.eqb_neq; congruence).
+  destruct L as [Hc Hs]. unfold disconnect. rewrite Hs. reflexivity.
+Qed.
+
+Lemma matching_id_clears : forall now v s, live s -> s_id s = Some (parse_id v) ->
+  recv now (MHeartbeat (Some v)) s = (set_mlt (set_id s None) now, []).
+Proof.
+  intros now v s L Hi. rewrite recv_live_eq by assumption. rewrite Hi, Z.eqb_refl. reflexivity.
+Qed.
+
+Lemma heartbeat_without_id_ignored : forall now s, live s ->
+  recv now (MHeartbeat None) s = (set_mlt s now, []).
+Proof.
+  intros now s L. rewrite recv_live_eq by assumption. destruct (s_id s); reflexivity.
+Qed.
+
+Lemma unsolicited_id_ignored : forall now v s, live s -> s_id s = None ->
+  recv now (MHeartbeat (Some v)) s = (set_mlt s now, []).
+Proof. intros now v s L Hi. rewrite recv_live_eq by assumption. rewrite Hi. reflexivity. Qed.
+
+(* ------------------------------------------------------------------ small intervals, other states *)
+(* hb = 0: probe and disconnect in the same iteration whenever time.time() is not a whole second *)
+Lemma hb0_immediate : forall now s t0,
+  idle_at s 0 t0 -> 1000 <= now -> -1000 < now - t0 -> now mod 1000 <> 0 ->
+  tick now s = (dead_st 0, [testreq_frame (now / 1000); ODisconnect]).
+Proof.
+  intros now s t0 (L & Hh & Hi & Hm) Hnow Hgt Hmod.
+  rewrite tick_live; [| assumption | lia | congruence].
+  unfold tick_spec. rewrite Hi, Hh, Hm.
+  replace ((0 - 1) * 1000 <? now - t0) with true by (symmetry; apply Z.ltb_lt; lia).
+  pose proof (div1000_pos now Hnow). pose proof (Z.div_mod now 1000 ltac:(lia)). pose proof (Z.mod_pos_bound now 1000 ltac:(lia)).
+  replace (now / 1000 =? 0) with false by (symmetry; apply Z.eqb_neq; lia).
+  replace (2 * 0 * 1000 <? now - now / 1000 * 1000) with true by (symmetry; apply Z.ltb_lt; lia).
+  reflexivity.
+Qed.
+
+(* outside ACTIVE only the last-message test applies: silence of more than 2 hb s drops the connection,
+   and a connection on which nothing was ever received (last = 0.0) is never dropped *)
+Lemma nonactive_tick : forall now s,
+  s_conn s = true -> s_state s <> ST_ACTIVE -> ST_DISCONNECTED_BROKEN_CONN < s_state s -> s_id s = None ->
+  tick now s =
+  if negb (s_mlt s =? 0) && (2 * s_hb s * 1000 <? now - s_mlt s)
+  then (dead_st (s_hb s), [ODisconnect]) else (s, []).
+Proof.
+  intros now [stt hb mlt id conn] Hc Hs Hb Hi. cbn in Hc, Hs, Hb, Hi. subst.
+  unfold tick. cbn [s_conn s_state s_hb s_mlt s_id negb].
+  replace (stt =? ST_ACTIVE) with false by (symmetry; apply Z.eqb_neq; assumption).
+  cbn [andb s_mlt s_hb]. rewrite thr_dead_eq.
+  destruct (negb (mlt =? 0) && (2 * hb * 1000 <? now - mlt)); [|reflexivity].
+  unfold disconnect. cbn [s_state]. apply Z.ltb_lt in Hb. rewrite Hb. reflexivity.
+Qed.
+
+(* int(time.time()) = 0 (the first second of the epoch) makes the id falsy but not None:
+   the next due probe raises inside the loop before its sleep *)
+Lemma epoch_spin : forall now s,
+  live s -> s_id s = Some 0 -> (s_hb s - 1) * 1000 < now - s_mlt s -> tick now s = (s, [OSpin]).
+Proof.
+  intros now [stt hb mlt id conn] [Hc Hs] Hi Hf. cbn in Hc, Hs, Hi, Hf. subst.
+  unfold tick. cbn [s_conn s_state s_hb s_mlt s_id negb].
+  rewrite Z.eqb_refl, thr_probe_eq. cbn [andb].
+  replace ((hb - 1) * 1000 <? now - mlt) with true by (symmetry; apply Z.ltb_lt; lia).
+  reflexivity.
+Qed.
+
+(* ------------------------------------------------------------------ witnesses *)
+(* merge of a tick train and a train of application messages, time ordered, ticks first at equal times *)
+Fixpoint merge_fuel (fuel : nat) (a b : list ev) : list ev :=
+  match fuel with
+  | O => []
+  | S f =>
+      match a, b with
+      | [], _ => b
+      | _, [] => a
+      | x :: a', y :: b' =>
+          if ev_time x <=? ev_time y then x :: merge_fuel f a' b else y :: merge_fuel f a b'
+      end
+  end.
+Definition merge (a b : list ev) : list ev := merge_fuel (length a + length b) a b.
+
+Fixpoint app_msgs (t period : Z) (k : nat) : list ev :=
+  match k with O => [] | S k' => Recv t MApp :: app_msgs (t + period) period k' end.
+
+Definition active0 (hb t0 : Z) : st := mkSt ST_ACTIVE hb t0 None true.
+
+Fixpoint sortedb (evs : list ev) : bool :=
+  match evs with
+  | [] => true
+  | e :: r => forallb (fun e' => ev_time e <=? ev_time e') r && sortedb r
+  end.
+
+Lemma sortedb_sorted : forall evs, sortedb evs = true -> sorted evs.
+Proof.
+  induction evs as [|e r IH]; intro H; [exact I|].
+  cbn in H. apply andb_true_iff in H. destruct H as [A B]. split; [|auto].
+  intros e' Hin. rewrite forallb_forall in A. specialize (A e' Hin). lia.
+Qed.
+
+(* maximal pause of valid inbound traffic before any event of the run (boolean form) *)
+Fixpoint gap_le (G last : Z) (evs : list ev) : bool :=
+  match evs with
+  | [] => true
+  | Recv t _ :: r => (t - last <=? G) && gap_le G t r
+  | e :: r => (ev_time e - last <=? G) && gap_le G last r
+  end.
+
+Definition wd_disconnectb (r : row) : bool :=
+  is_tick (r_ev r) && existsb (fun o => match o with ODisconnect => true | _ => false end) (r_out r).
+
+Lemma wd_disconnectb_ok : forall r, wd_disconnectb r = true -> wd_disconnect r.
+Proof.
+  intros r H. unfold wd_disconnectb in H. apply andb_true_iff in H. destruct H as [A B].
+  split; [assumption|]. apply existsb_exists in B. destruct B as [o [Hin Ho]].
+  destruct o; try discriminate. assumption.
+Qed.
+
+Definition only_app (evs : list ev) : bool :=
+  forallb (fun e => match e with Tick _ | Recv _ MApp => true | _ => false end) evs.
+
+(* D19, hb = 30: application traffic every 29.5 s, never a pause above one interval; the probe written at
+   +29.25 s is never answered; the watchdog drops the session at +89.25 s *)
+Definition d19_evs : list ev := merge (ticks 1000000250 120) (app_msgs 1000029500 29500 4).
+
+Lemma unanswered_probe_refuted :
+  exists hb t0 evs,
+    2 <= hb /\ sorted evs /\ only_app evs = true /\ gap_le (hb * 1000) t0 evs = true /\
+    exists r, In r (trace (active0 hb t0) evs) /\ wd_disconnect r.
+Proof.
+  exists 30, 1000000000, d19_evs.
+  split; [lia|]. split; [apply sortedb_sorted; vm_compute; reflexivity|].
+  split; [vm_compute; reflexivity|]. split; [vm_compute; reflexivity|].
+  assert (H : existsb wd_disconnectb (trace (active0 30 1000000000) d19_evs) = true) by (vm_compute; reflexivity).
+  apply existsb_exists in H. destruct H as [r [Hin Hr]]. exists r. split; [assumption | apply wd_disconnectb_ok; assumption].
+Qed.
+
+(* hb = 1: the probe threshold hb - 1 is 0; traffic every 0.5 s, probe at the first iteration, dropped at +2.25 s *)
+Definition d19_hb1_evs : list ev := merge (ticks 1000000250 5) (app_msgs 1000000500 500 9).
+
+Lemma unanswered_probe_hb1_refuted :
+  exists evs,
+    sorted evs /\ only_app evs = true /\ gap_le 500 1000000000 evs = true /\
+    exists r, In r (trace (active0 1 1000000000) evs) /\ wd_disconnect r.
+Proof.
+  exists d19_hb1_evs.
+  split; [apply sortedb_sorted; vm_compute; reflexivity|].
+  split; [vm_compute; reflexivity|]. split; [vm_compute; reflexivity|].
+  assert (H : existsb wd_disconnectb (trace (active0 1 1000000000) d19_hb1_evs) = true) by (vm_compute; reflexivity).
+  apply existsb_exists in H. destruct H as [r [Hin Hr]]. exists r. split; [assumption | apply wd_disconnectb_ok; assumption].
+Qed.
+
+(* the TESTREQUEST gate of send_msg lets a second TestRequest through exactly when one is outstanding *)
+Definition raw_evs : list ev := ticks 1000000000 6 ++ [AppRaw 1000006000 [88; 49]%N].
+
+Lemma raw_testrequest_refuted :
+  exists evs i k ri rk,
+    (i < k)%nat /\ nth_error (trace (active0 5 1000000000) evs) i = Some ri
+    /\ nth_error (trace (active0 5 1000000000) evs) k = Some rk
+    /\ writes_testreq ri = true /\ writes_testreq rk = true
+    /\ forall j rj, (i < j < k)%nat -> nth_error (trace (active0 5 1000000000) evs) j = Some rj ->
+                    is_tick (r_ev rj) = true.
+Proof.
+  exists raw_evs, 5%nat, 6%nat.
+  eexists. eexists. split; [lia|]. split; [vm_compute; reflexivity|]. split; [vm_compute; reflexivity|].
+  split; [reflexivity|]. split; [reflexivity|]. intros j rj Hj. lia.
+Qed.
+
+(* ------------------------------------------------------------------ non-vacuity *)
+(* hb = 30, first iteration at +0.25 s: k = 29 quiet iterations, probe at +29.25 s, m = 59 more, dropped at +89.25 s *)
+Example dead_peer_instance :
+  outs (active0 30 1000000000) (ticks 1000000250 (29 + 1 + (59 + 1))) =
+    repeat [] 29 ++ [[testreq_frame 1000029]] ++ repeat [] 59 ++ [[ODisconnect]]
+  /\ final (active0 30 1000000000) (ticks 1000000250 (29 + 1 + (59 + 1))) = dead_st 30.
+Proof.
+  pose proof (dead_peer_run 30 (active0 30 1000000000) 1000000000 1000000250 29 59
+                ltac:(lia) ltac:(repeat split; reflexivity) ltac:(lia)
+                ltac:(split; [vm_compute; discriminate | vm_compute; reflexivity])
+                ltac:(split; [vm_compute; discriminate | vm_compute; reflexivity])) as (A & B & _).
+  split; [exact A | exact B].
+Qed.
+
+(* a peer that answers: silent but for a Heartbeat echoing each probe 50 s after it (hb = 30, two probe cycles) *)
+Definition answering_evs : list ev :=
+  merge (ticks 1000000250 170)
+        [Recv 1000079250 (MHeartbeat (Some [49;48;48;48;48;50;57]%N));
+         Recv 1000158250 (MHeartbeat (Some [49;48;48;48;49;48;56]%N))].
+
+Fixpoint answersb (hb : Z) (tr : list row) : bool :=
+  match tr with
+  | [] => true
+  | r :: rest =>
+      match probe_row r with
+      | Some t =>
+          existsb (fun r' => match r_ev r' with
+                             | Recv ta (MHeartbeat (Some v)) =>
+                                 (parse_id v =? t / 1000) && (ta <=? (t / 1000 + 2 * hb) * 1000)
+                             | _ => false end) rest
+      | None => true
+      end && answersb hb rest
+  end.
+
+Lemma answersb_ok : forall hb tr, answersb hb tr = true -> answers hb tr.
+Proof.
+  induction tr as [|r rest IH]; intro H; [exact I|].
+  cbn [answersb] in H. apply andb_true_iff in H. destruct H as [A B]. split; [|auto].
+  intros t Ht. rewrite Ht in A. apply existsb_exists in A. destruct A as [r' [Hin Hr']].
+  exists r'. split; [assumption|].
+  destruct (r_ev r') as [| ta [[v|] | |] | |]; try discriminate.
+  apply andb_true_iff in Hr'. destruct Hr' as [P Q]. exists ta, v. repeat split; lia.
+Qed.
+
+Example live_peer_nonvacuous :
+  sorted answering_evs /\ answers 30 (trace (active0 30 1000000000) answering_evs)
+  /\ (length (filter writes_testreq (trace (active0 30 1000000000) answering_evs)) = 2)%nat
+  /\ Forall (fun r => ~ wd_disconnect r) (trace (active0 30 1000000000) answering_evs).
+Proof.
+  assert (S : sorted answering_evs) by (apply sortedb_sorted; vm_compute; reflexivity).
+  assert (A : answers 30 (trace (active0 30 1000000000) answering_evs)) by (apply answersb_ok; vm_compute; reflexivity).
+  split; [exact S|]. split; [exact A|]. split; [vm_compute; reflexivity|].
+  apply (live_peer 30 answering_evs (active0 30 1000000000) 1000000000); [lia | repeat split; reflexivity | | right; split; assumption].
+  apply Forall_forall. intros e He.
+  assert (F : forallb (fun e => 1000 <=? ev_time e) answering_evs = true) by (vm_compute; reflexivity).
+  rewrite forallb_forall in F. specialize (F e He). lia.
 Qed.
